@@ -649,6 +649,10 @@ def sc_c10(name, seed, mtu):
             s.rx([2], probe(X, b_mac, X, b_mac))
         if rng.random() < 0.3:
             s.rx([2], hello(0, PEER, gen, m, m))
+        # a third station emitting towards B with the same mapper-chosen Ethernet source / destination
+        if rng.random() < 0.6:
+            d0 = rng.choice(descs)
+            s.rx([2], probe(d0[2], d0[3], rng.choice([X, PEER]), b_mac, train=rng.random() < 0.5))
         s.rx([1], emit(m, a_mac, descs, seq=seq))
         s.pipe(1, 2)
         if rng.random() < 0.4:
